@@ -97,8 +97,16 @@ def run_one(m, outdir, tier="quick", maxprops=5):
         rec = dict(m, tried=[], status="survived")
         for pr in props:
             t0 = time.time()
-            r = subprocess.run([sys.executable, os.path.join(HERE, "check.py"), pr, "--tier", tier], cwd=VERIF, env=dict(os.environ, ST_REPO=tmp),
-                               stdout=subprocess.PIPE, stderr=subprocess.STDOUT, text=True)
+            try:
+                r = subprocess.run([sys.executable, os.path.join(HERE, "check.py"), pr, "--tier", tier], cwd=VERIF, env=dict(os.environ, ST_REPO=tmp),
+                                   stdout=subprocess.PIPE, stderr=subprocess.STDOUT, text=True, timeout=900)
+            except subprocess.TimeoutExpired:
+                # the mutant makes the library hang or crash on so many cases that the check does not finish in time: it is
+                # certainly not passing; counted as killed, marked as slow
+                rec["tried"].append(dict(prop=pr, rc=-1, wall=900, kinds=["timeout"], nfi=False))
+                rec["status"] = "killed"; rec["by"] = pr + " (timeout)"
+                subprocess.run("pkill -f 'ST_REPO=%s' ; pkill -f %s" % (tmp, tmp), shell=True)
+                break
             vio = [l for l in r.stdout.splitlines() if l.startswith("VIOLATION")]
             kinds = []
             for l in vio:
